@@ -13,8 +13,9 @@ fn render(enc: &dyn Encode, pieces: &[String], accept: Vec<usize>) -> Result<Str
         Ok(Ok(())) => {
             let mut bytes = vec![];
             for o in &cap.out {
-                if let crate::pattern::Out::Bytes(b) = o {
-                    bytes.extend_from_slice(b);
+                match o {
+                    crate::pattern::Out::Bytes(b) => bytes.extend_from_slice(b),
+                    crate::pattern::Out::Style(_) => return Err("a style request where the pattern / encoder has none".to_string()),
                 }
             }
             String::from_utf8(bytes).map_err(|e| e.to_string())
